@@ -497,7 +497,7 @@ func factAbout(f cfact, v ssa.Value) (token.Token, ssa.Value, bool) {
 	}
 	op, x, y := f.cond.Op, f.cond.X, f.cond.Y
 	same := func(a ssa.Value) bool {
-		if a == v || structEq(a, v, 0) || sameCellLoads(a, v) {
+		if a == v || structEq(a, v, 0) || sameCellLoads(a, v) || sameLen(a, v) {
 			return true
 		}
 		// through a conversion on either side
@@ -593,7 +593,9 @@ func (t *taint) tamed(v ssa.Value, facts []cfact, depth int) (nonneg, bounded bo
 		yn, yb := t.tamed(x.Y, facts, depth+1)
 		switch x.Op {
 		case token.ADD, token.MUL:
-			n2, b2 = xn && yn, xb && yb
+			// a sum or product of non-negative values is non-negative only while it cannot wrap around: both
+			// operands bounded
+			n2, b2 = xn && yn && xb && yb, xb && yb
 		case token.SUB:
 			n2, b2 = t.geq(x.X, x.Y, facts, depth+1), xb && yn
 		case token.QUO, token.REM, token.SHR:
@@ -1126,18 +1128,19 @@ func (t *taint) geq(x, y ssa.Value, facts []cfact, depth int) (res bool) {
 		}
 	}
 	for _, f := range facts {
-		if op, o, ok := factAbout(f, x); ok && (o == y || structEq(o, y, 0)) && (op == token.GEQ || op == token.GTR || op == token.EQL) {
+		if op, o, ok := factAbout(f, x); ok && (o == y || structEq(o, y, 0) || sameLen(o, y)) && (op == token.GEQ || op == token.GTR || op == token.EQL) {
 			return true
 		}
 	}
 	if b, ok := x.(*ssa.BinOp); ok && b.Op == token.ADD {
+		// y + z >= y for a non-negative z — unless the sum wraps around: z bounded as well
 		if b.X == y {
-			if n, _ := t.tamed(b.Y, facts, depth+1); n {
+			if n, bd := t.tamed(b.Y, facts, depth+1); n && bd {
 				return true
 			}
 		}
 		if b.Y == y {
-			if n, _ := t.tamed(b.X, facts, depth+1); n {
+			if n, bd := t.tamed(b.X, facts, depth+1); n && bd {
 				return true
 			}
 		}
@@ -2542,7 +2545,7 @@ func ruleEFFcreate(w *World, r *Report) {
 // self edges and two linked nodes deleted together would all keep their edges to the dead node.
 // ---------------------------------------------------------------------------------------------------------------
 func ruleGRDcascadeAll(w *World, r *Report) {
-	r.Doc("GRD-cascade-all", "in the background cascade of Engine.VDelete every neighbour taken from the relation lists reaches the VUnlink of its edge: the neighbour loops have no path back to their header that goes around the unlink (leaving the loop on shutdown is not such a path)", 2)
+	r.Doc("GRD-cascade-all", "in the delete cascade of Engine.VDelete every neighbour taken from the relation lists reaches the VUnlink of its edge: the neighbour loops have no path back to their header that goes around the unlink (leaving the loop on shutdown is not such a path)", 2)
 	fi := w.Func("pkg/engine", "Engine.VDelete")
 	unlink := w.FuncObj("pkg/engine", "Engine.VUnlink")
 	if fi == nil || unlink == nil {
@@ -2551,7 +2554,7 @@ func ruleGRDcascadeAll(w *World, r *Report) {
 	}
 	root := w.SSAFunc(fi.Obj)
 	n := 0
-	for _, f := range closuresOf(root) {
+	for _, f := range append([]*ssa.Function{root}, closuresOf(root)...) {
 		for _, in := range findInstrs(f, callsTo(unlink)) {
 			n++
 			ok, wit, h := everyIterationPasses(f, in, nil)
@@ -2563,7 +2566,7 @@ func ruleGRDcascadeAll(w *World, r *Report) {
 		}
 	}
 	if n == 0 {
-		r.Und("GRD-cascade-all", "Engine.VDelete:cascade-unlink", w.Pos(fi.Decl.Pos()), "no VUnlink found in a closure of Engine.VDelete (shape not recognised)")
+		r.Und("GRD-cascade-all", "Engine.VDelete:cascade-unlink", w.Pos(fi.Decl.Pos()), "no VUnlink found in Engine.VDelete or its closures (shape not recognised)")
 	}
 }
 
@@ -3201,4 +3204,364 @@ func innermostLoop(fn *ssa.Function, b *ssa.BasicBlock) *ssa.BasicBlock {
 		}
 	}
 	return best
+}
+
+// ---------------------------------------------------------------------------------------------------------------
+// CDC-13: replay completes a node that the snapshot captured bare.
+// A snapshot that runs while a VAdd is between its index insert and its metadata write restores the node without
+// metadata, and the VADD record (shadow-buffered) is replayed on top: "already exists" must not end the matter.
+// ---------------------------------------------------------------------------------------------------------------
+func ruleCDC13(w *World, r *Report) {
+	r.Doc("CDC-13", "in the apply phase of replayAOF the metadata of a VADD record can still be applied when adding its vector fails because the id already exists in the restored index: from the failure edge of the index's Add, DB.AddMetadata is reachable within the same iteration (through a look-up of the id)", 1)
+	fi := w.Func("pkg/engine", "Engine.replayAOF")
+	addMeta := w.FuncObj("pkg/core", "DB.AddMetadata")
+	if fi == nil || addMeta == nil {
+		r.Und("CDC-13", "anchor:Engine.replayAOF/DB.AddMetadata", "", "anchor lost")
+		return
+	}
+	fn := w.SSAFunc(fi.Obj)
+	var adds []*ssa.Call
+	for _, in := range findInstrs(fn, func(in ssa.Instruction) bool {
+		c, ok := in.(*ssa.Call)
+		if !ok {
+			return false
+		}
+		if c.Call.IsInvoke() {
+			return c.Call.Method.Name() == "Add" && strings.HasSuffix(c.Call.Value.Type().String(), "VectorIndex")
+		}
+		o := calleeObj(&c.Call)
+		return o != nil && shortName(o) == "Index.Add" && relPkg(o) == hnswPkg
+	}) {
+		adds = append(adds, in.(*ssa.Call))
+	}
+	if len(adds) == 0 {
+		r.Und("CDC-13", "Engine.replayAOF:vector-add", w.Pos(fi.Decl.Pos()), "the Add of replayed vectors was not found (shape not recognised)")
+		return
+	}
+	for i, c := range adds {
+		cc := c
+		reach := false
+		var wit []ssa.Instruction
+		fe := failureEdges(fn, cc)
+		for e := range fe {
+			if f, wt := (pathQuery{fn: fn, target: callsTo(addMeta), blocked: successEdges(fn, cc), avoid: func(in ssa.Instruction) bool {
+				_, next := in.(*ssa.Next) // the next entry of the map being replayed: another iteration
+				return next || in == ssa.Instruction(cc)
+			}}).find(ipos{e.from.Succs[e.succ], -1}); f {
+				reach, wit = true, wt
+			}
+		}
+		r.Cond(reach && len(fe) > 0, "CDC-13", fmt.Sprintf("Engine.replayAOF:vector-add#%d:metadata-also-when-the-node-exists", i+1), w.Pos(c.Pos()), "AddMetadata is reachable from the failure edge of Add", "replay drops the metadata of a VADD record whenever adding the vector fails — also when it fails because the snapshot already restored the node: a snapshot taken while that VAdd was between its index insert and its metadata write captured the node bare, so after the restart the acknowledged vector has no metadata and no filter selects it", w.witness(wit)...)
+	}
+}
+
+// ---------------------------------------------------------------------------------------------------------------
+// ORD-12: shadow writes go back into the log ahead of every write acknowledged after snapshot mode ended.
+// Ending the mode and re-appending what it returns are two steps for a caller: a concurrent operation writes into the
+// normal queue in between, its record lands in front of older shadow writes, and replay ends with the older value.
+// ---------------------------------------------------------------------------------------------------------------
+func ruleORD12(w *World, r *Report) {
+	r.Doc("ORD-12", "the engine ends snapshot mode only through LazyAOFWriter.EndSnapshotModeRequeue (never EndSnapshotMode followed by its own re-append), and the writer's requeue arm appends the drained shadow writes to its normal buffer in its own goroutine before it answers: no write acknowledged after the mode ended can get into the log ahead of an older shadow write", 3)
+	end := w.FuncObj("pkg/persistence", "LazyAOFWriter.EndSnapshotMode")
+	requeue := w.FuncObj("pkg/persistence", "LazyAOFWriter.EndSnapshotModeRequeue")
+	run := w.Func("pkg/persistence", "LazyAOFWriter.run")
+	if end == nil || run == nil {
+		r.Und("ORD-12", "anchor:LazyAOFWriter.EndSnapshotMode/run", "", "anchor lost")
+		return
+	}
+	// (a) call sites outside the persistence package
+	n := 0
+	for _, fi := range w.ModuleFuncs() {
+		if relPkg(fi.Obj) == "pkg/persistence" {
+			continue
+		}
+		fn := w.SSAFunc(fi.Obj)
+		if fn == nil {
+			continue
+		}
+		for _, f := range append([]*ssa.Function{fn}, closuresOf(fn)...) {
+			k := 0
+			for _, in := range findInstrs(f, callsTo(end, requeue)) {
+				n++
+				k++
+				isRq := requeue != nil && callsTo(requeue)(in)
+				r.Cond(isRq, "ORD-12", fmt.Sprintf("%s:end-of-snapshot-mode#%d:requeued-by-the-writer", fnKey(f), k), w.Pos(in.Pos()), "ends the mode through EndSnapshotModeRequeue", fnKey(f)+" ends snapshot mode with EndSnapshotMode and re-appends the returned shadow writes itself: from the moment the mode has ended concurrent operations write straight into the normal queue, in front of shadow writes still waiting to be re-appended — the log then holds \"SET k new\" before the older \"SET k old\" and a clean restart brings back the older value")
+			}
+		}
+	}
+	if n == 0 {
+		r.Und("ORD-12", "call-sites", "", "no call that ends snapshot mode found outside pkg/persistence (analysis lost its anchors)")
+	}
+	// (b) the writer's arm: on the requeue edge the drained writes are appended to the normal buffer before the answer is sent
+	if requeue == nil {
+		r.Bad("ORD-12", "LazyAOFWriter.run:requeue-arm", w.Pos(run.Decl.Pos()), "the writer has no EndSnapshotModeRequeue: a caller can only end snapshot mode and re-append the shadow writes in two separate steps")
+		return
+	}
+	fn := w.SSAFunc(run.Obj)
+	// the normal buffer: the []string cell that the flush closure writes to the underlying file; identified as the cell
+	// appended to on the not-in-snapshot-mode path of the write arm — here simply: the []string cells of run() other than
+	// the one whose contents are copied into the response
+	var respCopySrc ssa.Value // the cell whose contents are copied for the response (the snapshot buffer)
+	appendsTo := map[ssa.Value][]*ssa.Store{}
+	for _, b := range fn.Blocks {
+		for _, in := range b.Instrs {
+			st, ok := in.(*ssa.Store)
+			if !ok {
+				continue
+			}
+			c, ok := st.Val.(*ssa.Call)
+			if !ok {
+				continue
+			}
+			if _, isApp := isBuiltinCall(c, "append"); !isApp || len(c.Call.Args) != 2 {
+				continue
+			}
+			if strings.HasSuffix(c.Type().String(), "[]string") {
+				appendsTo[cellRoot(st.Addr)] = append(appendsTo[cellRoot(st.Addr)], st)
+			}
+		}
+	}
+	// the requeue append: an append to a []string cell whose second operand is a whole slice (not a one-element
+	// variadic pack), reachable from the comparison of the command kind with cmdEndSnapshotRequeue only on its true edge
+	ok := false
+	var at token.Pos
+	for cell, sts := range appendsTo {
+		_ = cell
+		for _, st := range sts {
+			c := st.Val.(*ssa.Call)
+			src := c.Call.Args[1]
+			if sl, isSl := src.(*ssa.Slice); isSl {
+				if _, fromPack := sl.X.(*ssa.Alloc); fromPack {
+					continue // append(buf, x): one element
+				}
+			}
+			// guarded by a test of the command kind
+			for _, bb := range fn.Blocks {
+				bo, neg, isC := condOf(bb)
+				if !isC || bo.Op != token.EQL && bo.Op != token.NEQ {
+					continue
+				}
+				kconst := ""
+				for _, side := range []ssa.Value{bo.X, bo.Y} {
+					if cc, isConst := side.(*ssa.Const); isConst {
+						if nt, isNamed := cc.Type().(*types.Named); isNamed && nt.Obj().Name() == "commandKind" {
+							kconst = cc.Value.String()
+						}
+					}
+				}
+				if kconst == "" {
+					continue
+				}
+				for si := range bb.Succs {
+					holds := (si == 0) != neg
+					if (bo.Op == token.EQL) != holds {
+						continue // the "kind differs" edge
+					}
+					stI := ssa.Instruction(st)
+					if f, _ := (pathQuery{fn: fn, target: func(in ssa.Instruction) bool { return in == stI }, avoid: func(in ssa.Instruction) bool { _, isSend := in.(*ssa.Send); return isSend }}).find(ipos{bb.Succs[si], -1}); f {
+						ok, at = true, st.Pos()
+						respCopySrc = src
+					}
+				}
+			}
+		}
+	}
+	_ = respCopySrc
+	pos := w.Pos(run.Decl.Pos())
+	if ok {
+		pos = w.Pos(at)
+	}
+	r.Cond(ok, "ORD-12", "LazyAOFWriter.run:requeue-arm:appends-shadow-writes-to-the-queue", pos, "on the edge of the requeue command a whole slice is appended to a queue of the run goroutine before the answer is sent", "the writer's EndSnapshotModeRequeue arm does not put the shadow writes back into its queue before it answers: the writes acknowledged while snapshot mode was active are in neither the log nor the queue, and are lost at the next restart")
+}
+
+// ---------------------------------------------------------------------------------------------------------------
+// ORD-13: a record is in the log file before the files it makes obsolete are destroyed.
+// GRD-asyncrm: the engine deletes files only synchronously (under the locks of the operation that decided it).
+// JRN-6: what hnsw.New refuses, VCreate refuses before it journals.
+// ---------------------------------------------------------------------------------------------------------------
+
+// destroysFiles: fn (or a callee inside the module, to depth 3) calls os.RemoveAll / os.Remove.
+func destroysFiles(w *World, fn *ssa.Function, depth int, seen map[*ssa.Function]bool) bool {
+	if fn == nil || seen[fn] || depth > 3 || len(fn.Blocks) == 0 {
+		return false
+	}
+	seen[fn] = true
+	for _, f := range append([]*ssa.Function{fn}, closuresOf(fn)...) {
+		for _, b := range f.Blocks {
+			for _, in := range b.Instrs {
+				c := callCommon(in)
+				if c == nil {
+					continue
+				}
+				if o := calleeObj(c); o != nil && o.Pkg() != nil && o.Pkg().Path() == "os" && (o.Name() == "RemoveAll" || o.Name() == "Remove") {
+					return true
+				}
+				if g := c.StaticCallee(); g != nil && inModule(g) && destroysFiles(w, g, depth+1, seen) {
+					return true
+				}
+			}
+		}
+	}
+	return false
+}
+
+func ruleORD13(w *World, r *Report) {
+	r.Doc("ORD-13", "in an engine operation that journals a record and then calls into pkg/core code that deletes files (the arena of a dropped index), a successful AOF.Flush lies between the journal write and that call on every path: the record is in the log file before the files are gone", 1)
+	jw := w.journalObj()
+	flush := w.FuncObj("pkg/persistence", "LazyAOFWriter.Flush")
+	sync := w.FuncObj("pkg/persistence", "LazyAOFWriter.Sync")
+	if jw == nil || flush == nil {
+		r.Und("ORD-13", "anchor:journal-write/Flush", "", "anchor lost")
+		return
+	}
+	n := 0
+	for _, fi := range w.journalingOps() {
+		fn := w.SSAFunc(fi.Obj)
+		if len(findInstrs(fn, callsTo(jw))) == 0 {
+			continue
+		}
+		k := 0
+		for _, in := range findInstrs(fn, func(in ssa.Instruction) bool {
+			c, ok := in.(*ssa.Call)
+			if !ok {
+				return false
+			}
+			g := c.Call.StaticCallee()
+			return g != nil && g.Pkg != nil && g.Pkg.Pkg != nil && strings.HasSuffix(g.Pkg.Pkg.Path(), "/pkg/core") && destroysFiles(w, g, 0, map[*ssa.Function]bool{})
+		}) {
+			// only calls that come after the journal write
+			dI := in
+			if reach, _ := (pathQuery{fn: fn, target: func(x ssa.Instruction) bool { return x == dI }}).find(posOf(findInstrs(fn, callsTo(jw))[0])); !reach {
+				continue
+			}
+			n++
+			k++
+			// no path journal-write → destroyer that avoids a flush, and none over a flush's failure edge
+			// a flush whose error nobody looks at does not count
+			checkedFlush := func(x ssa.Instruction) bool {
+				c, ok := x.(*ssa.Call)
+				return ok && callsTo(flush, sync)(x) && len(failureEdges(fn, c)) > 0
+			}
+			found, wit := (pathQuery{fn: fn, target: func(x ssa.Instruction) bool { return x == dI }, avoid: checkedFlush}).find(posOf(findInstrs(fn, callsTo(jw))[0]))
+			if !found {
+				for _, fl := range findInstrs(fn, checkedFlush) {
+					for e := range failureEdges(fn, fl.(*ssa.Call)) {
+						if f2, w2 := (pathQuery{fn: fn, target: func(x ssa.Instruction) bool { return x == dI }, avoid: checkedFlush}).find(ipos{e.from.Succs[e.succ], -1}); f2 {
+							found, wit = true, w2
+						}
+					}
+				}
+			}
+			callee := shortName(calleeObj(callCommon(in)))
+			r.Cond(!found, "ORD-13", fmt.Sprintf("%s:%s#%d:record-flushed-before-files-are-destroyed", shortName(fi.Obj), callee, k), w.Pos(in.Pos()), "a successful Flush lies between the journal write and the call that deletes files", shortName(fi.Obj)+" calls "+callee+", which deletes files, while its record may still sit in the writer's user-space buffer: the vectors live only in the arena files (the snapshot stores slot numbers), so a crash before the next periodic flush brings the dropped index back — listed by the snapshot, no VDROP in the log — with every vector zeroed", w.witness(wit)...)
+		}
+	}
+	if n == 0 {
+		r.Und("ORD-13", "sites", "", "no journaling operation calls file-deleting pkg/core code any more (analysis lost its anchors)")
+	}
+}
+
+func ruleGRDasyncrm(w *World, r *Report) {
+	r.Doc("GRD-asyncrm", "no goroutine started in pkg/engine deletes a file or directory whose path was fixed before it started (an argument or captured variable of the goroutine passed to os.Remove / os.RemoveAll): a deferred deletion by path name can hit the files of a same-named index created in the meantime", 1)
+	n := 0
+	for _, fn := range w.pkgSSAFuncs("pkg/engine") {
+		k := 0
+		for _, b := range fn.Blocks {
+			for _, in := range b.Instrs {
+				g, ok := in.(*ssa.Go)
+				if !ok {
+					continue
+				}
+				n++
+				k++
+				var target *ssa.Function
+				if mc, ok := g.Call.Value.(*ssa.MakeClosure); ok {
+					target, _ = mc.Fn.(*ssa.Function)
+				} else {
+					target = g.Call.StaticCallee()
+				}
+				// a deletion whose path was fixed before the goroutine started: handed in as an argument or captured
+				bad := false
+				if target != nil {
+					for _, f := range append([]*ssa.Function{target}, closuresOf(target)...) {
+						for _, bb := range f.Blocks {
+							for _, x := range bb.Instrs {
+								c := callCommon(x)
+								if c == nil || len(c.Args) == 0 {
+									continue
+								}
+								if o := calleeObj(c); o == nil || o.Pkg() == nil || o.Pkg().Path() != "os" || (o.Name() != "RemoveAll" && o.Name() != "Remove") {
+									continue
+								}
+								for _, rt := range valueRoots(c.Args[0]) {
+									switch rt.(type) {
+									case *ssa.Parameter, *ssa.FreeVar:
+										bad = true
+									}
+								}
+							}
+						}
+					}
+				}
+				r.Cond(!bad, "GRD-asyncrm", fmt.Sprintf("%s:go#%d:deletes-no-files", fnKey(fn), k), w.Pos(g.Pos()), "the goroutine deletes no files", fnKey(fn)+" starts a goroutine that deletes files by path: when the index it belonged to is re-created under the same name before the goroutine runs, the goroutine deletes the arena of the NEW index — the process keeps using the unlinked mapping and after the next snapshot and restart every vector of that index reads as zeros")
+			}
+		}
+	}
+	if n == 0 {
+		r.Und("GRD-asyncrm", "sites", "", "no go statement found in pkg/engine (analysis lost its anchors)")
+	}
+}
+
+func ruleJRN6(w *World, r *Report) {
+	r.Doc("JRN-6", "Engine.VCreate calls every exported Validate… function of pkg/core/hnsw, and returns on its failure edge, before it writes the VCREATE record: a create that hnsw.New would refuse for its parameters never reaches the log (where it would register the name on replay and mask a later valid create)", 2)
+	fi := w.Func("pkg/engine", "Engine.VCreate")
+	jw := w.journalObj()
+	if fi == nil || jw == nil {
+		r.Und("JRN-6", "anchor:Engine.VCreate/journal-write", "", "anchor lost")
+		return
+	}
+	fn := w.SSAFunc(fi.Obj)
+	n := 0
+	for _, v := range w.ModuleFuncs() {
+		if relPkg(v.Obj) != hnswPkg || !strings.HasPrefix(v.Obj.Name(), "Validate") || !v.Obj.Exported() || v.Obj.Type().(*types.Signature).Recv() != nil {
+			continue
+		}
+		// validators of the parameters New takes: (m, efConstruction, metric, precision), returning an error
+		vs := v.Obj.Type().(*types.Signature)
+		if vs.Results().Len() != 1 || !isErrorType(vs.Results().At(0).Type()) {
+			continue
+		}
+		okParams := vs.Params().Len() > 0
+		for i := 0; i < vs.Params().Len(); i++ {
+			ts := vs.Params().At(i).Type().String()
+			if !(isIntType(vs.Params().At(i).Type()) || strings.HasSuffix(ts, "distance.DistanceMetric") || strings.HasSuffix(ts, "distance.PrecisionType")) {
+				okParams = false
+			}
+		}
+		if !okParams {
+			continue
+		}
+		n++
+		ok, wit := precedesWithSuccess(fn, callsTo(v.Obj), callsTo(jw))
+		r.Cond(ok && len(findInstrs(fn, callsTo(v.Obj))) > 0, "JRN-6", "Engine.VCreate:"+v.Obj.Name()+":before-the-journal-write", w.Pos(fi.Decl.Pos()), "the validator has succeeded on every path to the journal write", "Engine.VCreate journals VCREATE without hnsw."+v.Obj.Name()+" having accepted the request: a create that hnsw.New then refuses stays in the log, registers the name on replay, a later valid create of the same name is skipped as a duplicate — and the index with all its vectors is gone after a clean restart", w.witness(wit)...)
+	}
+	if n == 0 {
+		r.Bad("JRN-6", "Engine.VCreate:validators", w.Pos(fi.Decl.Pos()), "pkg/core/hnsw exports no Validate… function: VCreate cannot refuse what hnsw.New refuses before it journals")
+	}
+}
+
+// sameLen: a and b are both len(x) (or both cap(x)) of the same slice value — a length does not change between two
+// reads of an SSA value.
+func sameLen(a, b ssa.Value) bool {
+	ca, ok1 := a.(*ssa.Call)
+	cb, ok2 := b.(*ssa.Call)
+	if !ok1 || !ok2 || ca == cb {
+		return false
+	}
+	ba, ok1 := ca.Call.Value.(*ssa.Builtin)
+	bb, ok2 := cb.Call.Value.(*ssa.Builtin)
+	if !ok1 || !ok2 || ba.Name() != bb.Name() || (ba.Name() != "len" && ba.Name() != "cap") || len(ca.Call.Args) != 1 || len(cb.Call.Args) != 1 {
+		return false
+	}
+	return ca.Call.Args[0] == cb.Call.Args[0]
 }
